@@ -195,4 +195,68 @@ theorem decodeMeta_version {t : Text} {m : Metadata} (h : decodeMeta t = .ok m) 
   · cases h
   · cases h
 
+/-! ### The version of a successfully loaded metadata file fits in `u32` -/
+
+theorem parseUnsigned_le {max : Nat} {s : Text} {n : Nat} (h : parseUnsigned max s = some n) :
+    n ≤ max := by
+  unfold parseUnsigned at h
+  split at h
+  · cases h
+  · split at h
+    · split at h
+      · cases h; assumption
+      · cases h
+    · cases h
+
+theorem stepLine_versionOk {st st' : MetaAcc} {l : Text} (h : stepLine st l = .ok st')
+    (hv : st.version ≤ u32Max) : st'.version ≤ u32Max := by
+  unfold stepLine at h
+  split at h
+  · split at h
+    · split at h
+      · rename_i n hn
+        cases h
+        exact parseUnsigned_le hn
+      · cases h
+    · split at h
+      · split at h
+        · cases h
+        · split at h
+          · cases h; exact hv
+          · cases h
+      · split at h
+        · split at h
+          · cases h; exact hv
+          · cases h
+          · cases h
+        · cases h; exact hv
+  · cases h
+
+theorem foldLines_versionOk {ls : List Text} {st st' : MetaAcc} (h : foldLines st ls = .ok st')
+    (hv : st.version ≤ u32Max) : st'.version ≤ u32Max := by
+  induction ls generalizing st with
+  | nil => simp only [foldLines] at h; cases h; exact hv
+  | cons l r ih =>
+    simp only [foldLines] at h
+    split at h
+    · rename_i st1 h1
+      exact ih h (stepLine_versionOk h1 hv)
+    · cases h
+    · cases h
+
+theorem decodeMeta_version_le {t : Text} {m : Metadata} (h : decodeMeta t = .ok m) :
+    m.version ≤ u32Max := by
+  unfold decodeMeta at h
+  split at h
+  · rename_i st hst
+    have hv : st.version ≤ u32Max := foldLines_versionOk hst (by decide)
+    split at h
+    · cases h
+    · split at h
+      · cases h
+      · cases h
+        exact hv
+  · cases h
+  · cases h
+
 end Pdb.C17
